@@ -2,6 +2,7 @@ package ast
 
 import (
 	"bytes"
+	"sort"
 	"strings"
 
 	"github.com/skx/evalfilter/v2/token"
@@ -34,6 +35,8 @@ func (hl *HashLiteral) String() string {
 			pairs = append(pairs, key.String()+":"+value.String())
 		}
 	}
+	// the pairs come out of a map: sort them so the text is stable
+	sort.Strings(pairs)
 	out.WriteString("{")
 	out.WriteString(strings.Join(pairs, ", "))
 	out.WriteString("}")
